@@ -8,6 +8,7 @@ import LlirModel.Drv.NumOps
 import LlirModel.Drv.MdOps
 import LlirModel.Drv.ModOps
 import LlirModel.Drv.CoreOps
+import LlirModel.Drv.Core2Ops
 import LlirModel.Drv.HistOps
 import LlirModel.Drv.FloatOps
 open Llir Llir.Drv
@@ -41,6 +42,9 @@ def dispatch (op : String) (args : List String) : String :=
   | some r => r
   | none =>
   match coreOps op args with
+  | some r => r
+  | none =>
+  match core2Ops op args with
   | some r => r
   | none =>
   match histOps op args with
